@@ -350,9 +350,25 @@ def conformance(rep: Report, ctx, pid: str, classes: dict[str, int]):
     return scs, traces, ver
 
 
+def _consumed_set(t):
+    """index of a Set event whose buffer is actually read: the next event of that partition is a non-empty Take
+    (a Set that is dropped again by a seek / unassign can be removed from a trace without anybody noticing)"""
+    for i, e in enumerate(t):
+        if e["e"] != "Set":
+            continue
+        for x in t[i + 1:]:
+            if x.get("tp") == e.get("tp") and x["e"] in ("Take", "Del", "Seek", "Set", "AwaitReset", "ResetTo"):
+                if x["e"] == "Take" and x.get("offs"):
+                    return i
+                break
+            if x["e"] == "Clear":
+                break
+    return None
+
+
 def _binding_selftest(traces, ver):
     base = next((t for t, v in zip(traces, ver) if v["accepted"] and not v["bad_l"]
-                 and any(e["e"] == "Take" and e["offs"] for e in t) and any(e["e"] == "Set" for e in t)), None)
+                 and any(e["e"] == "Take" and e["offs"] for e in t) and _consumed_set(t) is not None), None)
     if base is None:
         return
     mut = []
@@ -361,8 +377,7 @@ def _binding_selftest(traces, ver):
     t1[i] = dict(t1[i], pos=t1[i]["pos"] + 1)              # corrupted position
     mut.append(t1)
     t2 = [dict(e) for e in base]
-    i = next(i for i, e in enumerate(t2) if e["e"] == "Set")
-    del t2[i]                                              # removed event
+    del t2[_consumed_set(t2)]                              # removed event (a buffer that is read afterwards)
     mut.append(t2)
     t3 = [dict(e) for e in base]
     i = next(i for i, e in enumerate(t3) if e["e"] == "Take" and e["offs"])
